@@ -84,6 +84,12 @@ def reads(C):
             out["data"][k] = GetFromPaths(c0).get_data(C["E"][k])
         except Exception as e:  # noqa
             out["data"][k] = "EXC " + type(e).__name__
+        # the single-value reads (the other read API): through the Getter, through GetFromAll, through the Sid
+        try:
+            from spil import GetFromAll
+            out.setdefault("attr", {})[k] = [GetFromPaths(c0).get_attr(C["E"][k], "a"), GetFromAll().get_attr(C["E"][k], "a"), Sid(C["E"][k]).get_attr("a")]
+        except Exception as e:  # noqa
+            out.setdefault("attr", {})[k] = "EXC " + type(e).__name__
     for s in c15.search_menu(C)[:15]:
         try:
             out["find"][s] = [sorted(FindInPaths(c0).find(s, as_sid=False)), sorted(FindInAll().find(s, as_sid=False))]
@@ -155,6 +161,14 @@ def run_history(C, h, rec, only_state=None):
                     viols.append(dict(signature=sig, observed=[k, got["data"][k]], expected=[old["data"][k], new["data"][k]]))
             elif got["data"][k] != old["data"][k]:
                 viols.append(dict(signature="crash-changes-data-of-another-sid", observed=[k, got["data"][k]], expected=old["data"][k]))
+        for k in got.get("attr", {}):
+            allowed = (old["attr"][k], new["attr"][k]) if (k in same_sidecar or (op[0] == "create" and k == target)) else (old["attr"][k],)
+            if got["attr"][k] not in allowed:
+                sig = "single-value-read-after-crash-differs"
+                if isinstance(got["attr"][k], str):
+                    sig = "single-value-read-after-crash-raises/" + got["attr"][k].split()[-1]
+                viols.append(dict(signature=sig, observed=[k, got["attr"][k]], expected=list(allowed)))
+                break
         for s in got["find"]:
             if got["find"][s] not in ((old["find"][s], new["find"][s]) if op[0] == "create" else (old["find"][s],)):
                 viols.append(dict(signature="crash-changes-a-search-result", observed=[s, got["find"][s]], expected=old["find"][s]))
@@ -233,6 +247,16 @@ def run_corruption(C, case, rec):
                 viols.append(dict(signature=sig + "/" + kind, observed=[x, got["data"][x]], expected=want))
         elif got["data"][x] != old["data"][x]:
             viols.append(dict(signature="damaged-sidecar-changes-another-read/" + kind, observed=[x, got["data"][x]], expected=old["data"][x]))
+    for x in got.get("attr", {}):
+        if x in same:
+            want = [None, None, None]
+            if got["attr"][x] != want:
+                sig = "damaged-sidecar-single-value-read-is-not-none"
+                if isinstance(got["attr"][x], str):
+                    sig = "damaged-sidecar-single-value-read-raises/" + got["attr"][x].split()[-1]
+                viols.append(dict(signature=sig + "/" + kind, observed=[x, got["attr"][x]], expected=want))
+        elif got["attr"][x] != old["attr"][x]:
+            viols.append(dict(signature="damaged-sidecar-changes-another-read/" + kind, observed=[x, got["attr"][x]], expected=old["attr"][x]))
     for s in got["find"]:
         if got["find"][s] != old["find"][s]:
             viols.append(dict(signature="damaged-sidecar-changes-a-search/" + kind, observed=[s, got["find"][s]], expected=old["find"][s]))
